@@ -281,7 +281,7 @@ class Prover:
             return
         out.append(("nec", D, v))
 
-    def truth(self, D, val, out):
+    def truth(self, D, val, out, depth=0):
         t = D[0]
         if t == "const":
             return
@@ -328,6 +328,21 @@ class Prover:
             if op == "BitOr" and not val:
                 self.truth(a, False, out)
                 self.truth(b, False, out)
+                return
+        if t == "phi" and depth < 4:
+            # a boolean join (the lowering of && / ||): if the phi has this truth value and all
+            # but one incoming value are the opposite constant, that one incoming edge was taken
+            cfg = self.an.cfg
+            ins = []
+            for e in cfg.in_edges[D[1]]:
+                st = self.an.out_state.get(e.src)
+                if st is not None:
+                    ins.append((e, self.an.read(st, D[2])))
+            live = [(e, v) for e, v in ins if not (v[0] == "const" and bool(v[1]) != val)]
+            if len(live) == 1 and len(ins) > 1:
+                e, v = live[0]
+                self.truth(v, val, out, depth + 1)
+                out.extend(self.facts_at(e.node))
                 return
         if t == "call":
             callee = D[1]
